@@ -744,7 +744,7 @@ func (env *CEnv) quant(x *CExpr) CV {
 	var ranges []*Term
 	for _, v := range x.Vars {
 		env.e.root.cellN++
-		name := fmt.Sprintf("q.%s.%d", v.Name, env.e.root.cellN)
+		name := fmt.Sprintf("q.%s.d%d", v.Name, sub.qdepth) // canonical: equal quantified formulas print equal
 		var sort string
 		var T types.Type
 		switch v.Type {
